@@ -356,9 +356,9 @@ def gen_plan(seed: int, cls: str) -> dict:
                 r = ro.random()
                 if r < 0.45:
                     members = ro.sample([['s', 'int'], ['s', 'float'], ['s', 'str'], ['s', 'bool'], ['s', 'none']], 2)
-                    params.append(['union'] + members)
+                    params.append(['runion'] + members)
                 elif r < 0.6:
-                    params.append(['opt', ['s', ro.choice(['int', 'float', 'str'])]])
+                    params.append(['runion', ['s', ro.choice(['int', 'float', 'str'])], ['s', 'none']])
                 else:
                     params.append(tg.gen_type(ro, sym, [k for k in kinds if k not in ('tl', 'dl', 'gen')], C10_SCALARS,
                                               depth=1, max_depth=2, top=False))
@@ -368,6 +368,7 @@ def gen_plan(seed: int, cls: str) -> dict:
                     if ro.random() < 0.6:
                         tvn = ro.choice(['T', 'U'])
                         params[j] = ro.choice([['tv', tvn], ['tv', tvn], ['list', ['tv', tvn]], ['opt', ['tv', tvn]]])
+            params = [p_ if p_[0] == 'runion' else tg.normalise_unions(p_) for p_ in params]
             ast = ['gen', g] + params
             rname = f'r{nroot}'
             nroot += 1
@@ -378,9 +379,9 @@ def gen_plan(seed: int, cls: str) -> dict:
             if fr:
                 partials[rname] = fr
             ops.append({'op': 'subscript', 'name': rname, 't': ast, 'g': g, 'data': probe(ast)})
-            if any(p_[0] == 'union' for p_ in params) and ro.random() < 0.5:
+            if any(p_[0] == 'runion' for p_ in params) and ro.random() < 0.5:
                 # the same parameters spelled in the other order (equal to typing, different to pane)
-                params2 = [['union'] + list(reversed(p_[1:])) if p_[0] == 'union' else p_ for p_ in params]
+                params2 = [['runion'] + list(reversed(p_[1:])) if p_[0] == 'runion' else p_ for p_ in params]
                 ast2 = ['gen', g] + params2
                 rname = f'r{nroot}'
                 nroot += 1
@@ -1096,7 +1097,7 @@ class Exec:
             reordered = False
             try:
                 reordered = (cached_params == params and
-                             [list(tg_flat(p)) for p in cached_params] != [list(tg_flat(p)) for p in params])
+                             [spell(p) for p in cached_params] != [spell(p) for p in params])
             except Exception:
                 pass
             if reordered:
@@ -1155,6 +1156,15 @@ class Exec:
     # -- structural invariants of the memo (quiescent: single-threaded here)
     def check_memo_invariants(self, i):
         _check_kc_invariants(self.seams.current_mc, self.count)
+
+
+def spell(p):
+    """Order-sensitive structural spelling of a type expression (leaves by identity)."""
+    import typing as t
+    args = t.get_args(p)
+    if not args:
+        return ('leaf', id(p))
+    return (repr(t.get_origin(p)), tuple(spell(a) for a in args))
 
 
 def tg_flat(p):
@@ -1421,6 +1431,7 @@ def execute_threads(plan, want_trace=False) -> dict:
     results = []      # per thread: list of fingerprints
     expected = []
     kc = None
+    inconclusive = False
     gc.collect()
     gc.disable()
     try:
@@ -1524,8 +1535,11 @@ def execute_threads(plan, want_trace=False) -> dict:
             sched.run()
         except Deadlock as e:
             violation = {'kind': 'deadlock', 'detail': str(e)}
-        except StepLimit as e:
-            violation = {'kind': 'no_progress', 'detail': str(e)}
+        except StepLimit:
+            # a step cap bounds the run; it is not evidence of anything (a long conversion under a wide trace
+            # scope can legitimately need more steps): the run is inconclusive and is only counted
+            count('step_limit_hit')
+            inconclusive = True
         trace.add('schedule', len(sched.schedule_out), h64(canon(sched.schedule_out)) % 10**12, sched.switches)
         count('sched_steps', sched.steps)
         count('context_switches', sched.switches)
@@ -1534,12 +1548,12 @@ def execute_threads(plan, want_trace=False) -> dict:
             if isinstance(lk, SimRLock):
                 count('lock_contended', lk.contended)
                 count('lock_acquisitions', lk.acquisitions)
-        if violation is None:
+        if violation is None and not inconclusive:
             for ti, t in enumerate(sched.threads):
                 if t.exc is not None:
                     violation = {'kind': 'exception_escaped', 'detail': f"thread {ti}: {type(t.exc).__name__}: {mask(str(t.exc))[:200]}"}
                     break
-        if violation is None:
+        if violation is None and not inconclusive:
             for ti, (got, exp) in enumerate(zip(results, expected)):
                 trace.add('thread', ti, [h64(canon(order_free(g))) % 10**9 if g is not None else None for g in got])
                 if len(got) != len(exp):
@@ -1552,7 +1566,7 @@ def execute_threads(plan, want_trace=False) -> dict:
                         break
                 if violation:
                     break
-        if violation is None and kc is not None:
+        if violation is None and kc is not None and not inconclusive:
             try:
                 _check_kc_invariants(kc, count)
             except Violation as v:
